@@ -506,7 +506,7 @@ func (s *verifSim) records(id ch.NodeID, c int) ([]ch.Record, error) {
 	defer st.Close()
 	ctx, cancel := context.WithTimeout(context.Background(), 10*time.Second)
 	defer cancel()
-	res, err := st.ReadLog(ctx, channelstore.ReadLogRequest{FromOffset: 1})
+	res, err := st.ReadLog(ctx, channelstore.ReadLogRequest{FromOffset: 1, MaxBytes: 64 << 20})
 	if err != nil {
 		return nil, err
 	}
@@ -570,6 +570,14 @@ func (s *verifSim) install(c int, authority Authority) (Installed, error) {
 	n.installed[c] = cloneAuthority(authority)
 	if len(reach) < authority.WriteQuorum && !alreadyReady {
 		s.fail("C01", "install-without-quorum", "Install became ready on node %d while only %v of voters were reachable (write quorum %d)", authority.Leader, reach, authority.WriteQuorum)
+	}
+	if alreadyReady {
+		// the owner was already ready under this exact authority: Install only
+		// returns its cached frontier, nothing becomes writable here. Entries a
+		// not-yet-informed older leader got acknowledged meanwhile are judged by
+		// the next real recovery and by the end-state ledger check.
+		s.flags["re-install of an already ready authority (cached frontier, not judged)"] = true
+		return installed, nil
 	}
 	s.checkInstalledAgainstLedger(c, authority, installed)
 	return installed, nil
@@ -704,7 +712,11 @@ func (s *verifSim) validateReceipt(cmd *verifSimCommand, receipt Receipt, before
 			s.fail("C03", "acked-identity-mismatch", "seq %d identity %+v does not carry command/authority of receipt %+v", seq, identity, receipt)
 		}
 		if int(seq) > len(recs) || !verifSimSameRecord(recs[seq-1], cmd.proposal.Records[i], seq) {
-			s.fail("C03", "acked-content-mismatch", "seq %d stored record differs from proposed record", seq)
+			var got ch.Record
+			if int(seq) <= len(recs) {
+				got = recs[seq-1]
+			}
+			s.fail("C03", "acked-content-mismatch", "seq %d stored record %+v differs from proposed record %+v", seq, got, cmd.proposal.Records[i])
 		}
 		entry := verifSimLedgerEntry{identity: identity, command: cmd.proposal.CommandID, authority: receipt.Authority, node: cmd.node, base: receipt.First - 1, record: cmd.proposal.Records[i]}
 		if prev, dup := s.ledger[c][seq]; dup && prev.identity != identity {
@@ -731,7 +743,7 @@ func (s *verifSim) validateReceipt(cmd *verifSimCommand, receipt Receipt, before
 }
 
 func verifSimSameRecord(stored, proposed ch.Record, seq uint64) bool {
-	return stored.ID == proposed.ID && stored.Epoch == proposed.Epoch && stored.Setting == proposed.Setting && stored.FromUID == proposed.FromUID &&
+	return stored.ID == proposed.ID && stored.Setting == proposed.Setting && stored.FromUID == proposed.FromUID &&
 		stored.ClientMsgNo == proposed.ClientMsgNo && stored.ServerTimestampMS == proposed.ServerTimestampMS && stored.SyncOnce == proposed.SyncOnce &&
 		string(stored.Payload) == string(proposed.Payload) && (stored.Index == 0 || stored.Index == seq)
 }
